@@ -430,11 +430,17 @@ class Circuit:
         errcnt = 0
         get_time = asyncio.get_running_loop().time
         start_time = get_time()
-        for blk, task, timeout in sorted(btt_list, key=operator.itemgetter(2), reverse=True):
+        btt_list = sorted(btt_list, key=operator.itemgetter(2), reverse=True)
+        for blk, task, timeout in btt_list:
             # sorted from longest timeout
             if not task.done():
                 try:
                     await asyncio.wait_for(task, timeout - get_time() + start_time)
+                except asyncio.CancelledError:
+                    # do not leave the other tasks running when cancelled
+                    for _blk, other, _timeout in btt_list:
+                        other.cancel()
+                    raise
                 except asyncio.TimeoutError:
                     errcnt += 1
                     blk.log_warning(
